@@ -19,6 +19,8 @@ For every input sequence of the ports (unbounded length, any traffic) on the com
                                  never more than `postponing` refreshes are owed, the long-run rate is exactly one per tREFI;
  * `refresh_episode_ends`        from every reachable state the refresher is back in IDLE (multiplexer out of REFRESH, bank machines
                                  released) within psiMax + 2 + postponing·(tRP+tRFC+1) + ZQCS length cycles: traffic resumes;
+ * `zqcs_served`                 a due ZQ calibration (timer expired) is issued within `zMax` cycles - at the end of the next refresh
+                                 episode - so calibrations recur with a period of at most zq_period + zMax;
  * `refresh_deadline`            **the k-th AUTO REFRESH (k ≥ 1) has been issued by cycle (k + postponing)·tREFI + lat0 +
                                  postponing·(tRP+tRFC+1)**, with the fixed service latency lat0 = psiMax + 2 + (tRP+tZQCS+1 if ZQCS)
                                  (`refresh_deadline_qr`: refresh r+1 of the (q+1)-th request at most lat0 + (r+1)·(tRP+tRFC+1)
@@ -121,6 +123,20 @@ theorem refresh_episode_ends (c : Controller.Cfg) (hwf : CtlInv.WF c) (hb : Budg
     · simp only [epi, hi]; omega
     · simp only [hi, if_false, slack] at hmain; omega
   obtain ⟨k, hk, hkf⟩ := reach_idle c hwf hb post _ g w hnl hpost (by omega)
+  exact ⟨k, by omega, hkf⟩
+
+/-- **a due ZQ calibration is served**: from every reachable state in which the calibration timer has expired and no
+calibration was started since (`zqDue`), the multiplexer takes a ZQ CALIBRATION (short) command from the refresher within
+`zMax c` = 2·postponing·tREFI + psiMax + postponing·(tRP+tRFC+1) + 2·tRP + tZQCS + 8 cycles, whatever the ports do: the
+calibration rides at the end of the next refresh episode.  The timer expires `zq_period` cycles after the previous calibration
+completed (it is reloaded by `zqDone`), so calibrations recur with a period of at most `zq_period + zMax`. -/
+theorem zqcs_served (c : Controller.Cfg) (hwf : CtlInv.WF c) (hb : Budget c) (hwr : c.rf.withRefresh = true) (z : Nat)
+    (hz : c.rf.tZQCS = some z) (pre post : List (Array BankIn)) (hpre : ∀ ins ∈ pre, InsOk c ins)
+    (hpost : ∀ ins ∈ post, InsOk c ins) (hdue : zqDue (C04.runCtl c (init c) pre).rf = true) (hlen : zMax c ≤ post.length) :
+    ∃ k, k ≤ zMax c ∧ zqAcc c (C04.runCtl c (C04.runCtl c (init c) pre) (post.take k)) = true := by
+  obtain ⟨g, w, hnl⟩ := nl_reachable c hwf hb pre hpre
+  have hle := zpot_le c hwf hb z hz _ g w hnl
+  obtain ⟨k, hk, hkf⟩ := reach_zq c hwf hb hwr z hz post _ g w hnl (Or.inl hdue) hpost (by omega)
   exact ⟨k, by omega, hkf⟩
 
 /-- fixed service latency of the deadline theorem: the worst-case wait for the bus and a ZQ calibration -/
